@@ -241,10 +241,46 @@ where
     out.join(";")
 }
 
+// ---- accessor functions of `Wrapping<F>` that return plain numbers (`wrapping.rs`): `wq_<fn> s n f [x]`
+trait WQ: Fixed { fn pow2(x: W<Self>) -> Option<bool>; }
+macro_rules! wq {
+    ($($F:ident, $L:ident, $e:expr);*) => { $(
+        impl<Frac: substrate_fixed::types::extra::$L> WQ for substrate_fixed::$F<Frac> {
+            #[allow(unused_variables)]
+            fn pow2(x: W<Self>) -> Option<bool> { let f: fn(W<Self>) -> Option<bool> = $e; f(x) }
+        }
+    )* };
+}
+wq! { FixedI8, LeEqU8, |_| None; FixedI16, LeEqU16, |_| None; FixedI32, LeEqU32, |_| None; FixedI64, LeEqU64, |_| None; FixedI128, LeEqU128, |_| None;
+      FixedU8, LeEqU8, |x| Some(x.is_power_of_two()); FixedU16, LeEqU16, |x| Some(x.is_power_of_two()); FixedU32, LeEqU32, |x| Some(x.is_power_of_two());
+      FixedU64, LeEqU64, |x| Some(x.is_power_of_two()); FixedU128, LeEqU128, |x| Some(x.is_power_of_two()) }
+
+fn run_wq<F: Fixed + WQ>(op: &str, a: &[&str]) -> String
+where
+    F::Bits: Prim,
+    W<F>: std::fmt::Display,
+{
+    let x = || W::<F>::from_bits(<F::Bits as Prim>::parse(arg(a, 0)));
+    match op {
+        "wq_count_ones" => x().count_ones().to_string(),
+        "wq_count_zeros" => x().count_zeros().to_string(),
+        "wq_leading_zeros" => x().leading_zeros().to_string(),
+        "wq_trailing_zeros" => x().trailing_zeros().to_string(),
+        "wq_is_power_of_two" => match F::pow2(x()) { Some(b) => b01(b).to_string(), None => bad() },
+        "wq_min_value" => W::<F>::min_value().to_bits().to_string(),
+        "wq_max_value" => W::<F>::max_value().to_bits().to_string(),
+        "wq_int_nbits" => W::<F>::int_nbits().to_string(),
+        "wq_frac_nbits" => W::<F>::frac_nbits().to_string(),
+        "wq_display" => hex(format!("{}", x()).as_bytes()),
+        _ => "UNKNOWN".to_string(),
+    }
+}
+
 fn main() {
     serve(|op, s, n, f, a| match op {
         "wprog" => sfx_dispatch!(s, n, f, run(a)),
         "fprog" => sfx_dispatch!(s, n, f, run_f(a)),
+        _ if op.starts_with("wq_") => sfx_dispatch!(s, n, f, run_wq(op, a)),
         _ => "UNKNOWN".to_string(),
     });
 }
